@@ -132,3 +132,59 @@ Proof.
       unfold cov. split; intros (e & I & Hh); exists e; split; auto;
         [eapply Permutation_in; [exact P | exact I] | eapply Permutation_in; [symmetry; exact P | exact I]].
 Qed.
+
+(* ---------------------------------------------------------------------- *)
+(* the error direction                                                     *)
+(* ---------------------------------------------------------------------- *)
+Lemma Sorted_app_r' {A} (R : A -> A -> Prop) l1 l2 : Sorted R (l1 ++ l2) -> Sorted R l2.
+Proof. induction l1; simpl; auto. intro S. apply IHl1. now inversion S. Qed.
+
+Lemma squash_loop_err l : forall g prev r,
+  squash_loop g prev l = r -> (forall out, r <> Ok out) ->
+  r = Err E_BAD_EDGES_CONTRADICTORY_CHILDREN /\
+  exists l1 a b l2, prev :: l = l1 ++ a :: b :: l2 /\ e_parent a = e_parent b /\ e_child a = e_child b /\
+                    e_left b < e_right a.
+Proof.
+  induction l as [|e tl IH]; intros g prev r H N; simpl in H.
+  - exfalso. subst r. eapply N; eauto.
+  - destruct ((e_parent prev =? e_parent e) && (e_child prev =? e_child e) && (e_left e <? e_right prev)) eqn:C.
+    + subst r. split; auto. apply andb_true_iff in C as [C C3]. apply andb_true_iff in C as [C1 C2].
+      apply Z.eqb_eq in C1, C2. apply Z.ltb_lt in C3.
+      exists [], prev, e, tl. repeat split; auto.
+    + assert (Lift : forall g', squash_loop g' e tl = r \/ (exists o, squash_loop g' e tl = o /\ (forall out, o <> Ok out) /\ r = o) ->
+                True) by auto. clear Lift.
+      destruct (negb (e_parent prev =? e_parent e) || negb (e_right prev =? e_left e) || negb (e_child g =? e_child e)).
+      * destruct (squash_loop e e tl) as [o| | |] eqn:R; simpl in H.
+        -- exfalso. subst r. eapply N; eauto.
+        -- destruct (IH e e (Err code) R) as (E & l1 & a & b & l2 & El & H1); [discriminate|].
+           subst r. split; [congruence|]. exists (prev :: l1), a, b, l2. rewrite El. repeat split; tauto.
+        -- destruct (IH e e OOB R) as (E & _); discriminate.
+        -- destruct (IH e e Fuel R) as (E & _); discriminate.
+      * destruct (IH g e r H N) as (E & l1 & a & b & l2 & El & H1).
+        split; auto. exists (prev :: l1), a, b, l2. rewrite El. repeat split; tauto.
+Qed.
+
+(* tsk_squash_edges either succeeds or reports contradictory children, and then two of the
+   input edges of one (parent, child) really overlap *)
+Theorem squash_edges_err Q edges r :
+  qsorts_ok Q -> squash_edges Q edges = r -> (forall out, r <> Ok out) ->
+  r = Err E_BAD_EDGES_CONTRADICTORY_CHILDREN /\
+  exists a b, In a edges /\ In b edges /\ e_parent a = e_parent b /\ e_child a = e_child b /\
+              e_left a <= e_left b /\ e_left b < e_right a.
+Proof.
+  intros HQ H N. unfold squash_edges in H.
+  destruct edges as [|x [|y tl]]; try (exfalso; subst r; eapply N; eauto; fail).
+  assert (HS : sorts_by cmp_edge_cl (qs_edge_cl Q)) by apply HQ.
+  destruct (HS (x :: y :: tl)) as [P S].
+  destruct (qs_edge_cl Q (x :: y :: tl)) as [|e0 rest] eqn:E; [exfalso; subst r; eapply N; eauto|].
+  destruct (squash_loop_err rest e0 e0 r H N) as (Er & l1 & a & b & l2 & El & H1 & H2 & H3).
+  split; auto. exists a, b.
+  assert (Ia : In a (e0 :: rest)) by (rewrite El; apply in_or_app; right; now left).
+  assert (Ib : In b (e0 :: rest)) by (rewrite El; apply in_or_app; right; right; now left).
+  split; [eapply Permutation_in; [symmetry; exact P | exact Ia]|].
+  split; [eapply Permutation_in; [symmetry; exact P | exact Ib]|].
+  repeat split; auto.
+  (* a immediately precedes b in the sorted list *)
+  rewrite El in S. apply Sorted_app_r' in S. inversion S as [|? ? _ Hd]; subst. inversion Hd as [|? ? Hab]; subst.
+  apply cmp_edge_cl_le in Hab. unfold edge_cl_key in Hab. simpl in Hab. lia.
+Qed.
